@@ -77,7 +77,11 @@ def run_tlc(work, module, cfg, env=None, workers=None, timeout=900, simulate=Non
     cmd = ["timeout", str(timeout), "java"] + jopts + ["-cp", TLA_CP, "tlc2.TLC",
            "-workers", str(workers or WORKERS), "-metadir", meta,
            "-cleanup", "-noGenerateSpecTE", "-config", cfg]
-    if coverage:
+    # Per-action coverage is opt-in (VERIF_COVERAGE=1): TLC's cost-model creation walks every
+    # definition at every use site, which stopped terminating in reasonable time once the text
+    # operators were written with LAMBDA / FoldLeft instead of RECURSIVE (minutes on one thread
+    # before the first state).  Non-vacuity is witnessed by the CASE / record counts instead.
+    if coverage and os.environ.get("VERIF_COVERAGE") == "1":
         # per-action counts; not for trace validation (with -coverage TLC re-reads the trace
         # constant instead of caching it and runs out of memory)
         cmd += ["-coverage", "1"]
@@ -357,23 +361,53 @@ class Ctx:
                         f.write(json.dumps(x) + "\n")
                 log("[%s]   %d recorded calls panicked or hung" % (self.pid, len(bad)))
             del allrecs
-        r = run_tlc(self.work, module, cfg, env={"TRACE": trace}, timeout=timeout,
-                    depth_first=sequential, coverage=False, **kw)
-        if r.error or r.rc != 0:
-            if r.error and "Deadlock" in r.error:
-                recs = [json.loads(l) for l in open(trace)]
-                k, l = parse_deadlock(r.error_text)
-                self.add_mismatch({"case": recs[k - 1] if k else None, "history": k, "event": l,
-                                   "what": "trace rejected by the specification at event %s" % l,
-                                   "spec_state": r.error_text[-3000:]}, "trace:" + name)
-            else:
-                sys.stderr.write(r.stdout + "\n")
-                raise ToolFailure("TLC failed validating trace %s with %s: %s" % (trace, module, r.error))
+        # TLC holds the whole trace in memory (several times the size of the JSON text): a large
+        # trace is validated in parts of at most ~24 MB
+        part_files = []
+        if os.path.getsize(trace) > 24 * 1024 * 1024:
+            cur, size, idx = None, 0, 0
+            for line in open(trace):
+                if cur is None or size + len(line) > 24 * 1024 * 1024:
+                    if cur:
+                        cur.close()
+                    idx += 1
+                    pf = "%s.part%d" % (trace, idx)
+                    part_files.append([pf, 0])
+                    cur, size = open(pf, "w"), 0
+                cur.write(line)
+                size += len(line)
+                part_files[-1][1] += 1
+            cur.close()
+        else:
+            part_files = [[trace, -1]]
         bytag = {}
-        for body in r.mismatches:
-            parts = json.loads("[" + body + "]")
-            k, tag = parts[0], (parts[1] if len(parts) > 1 else "")
-            bytag.setdefault(k, set()).add(tag)
+        distinct = generated = 0
+        wall = 0.0
+        offset = 0
+        for pf, count in part_files:
+            r = run_tlc(self.work, module, cfg, env={"TRACE": pf}, timeout=timeout,
+                        depth_first=sequential, coverage=False, **kw)
+            if r.error or r.rc != 0:
+                if r.error and "Deadlock" in r.error:
+                    precs = [json.loads(l) for l in open(pf)]
+                    k, l = parse_deadlock(r.error_text)
+                    self.add_mismatch({"case": precs[k - 1] if k else None, "history": k + offset, "event": l,
+                                       "what": "trace rejected by the specification at event %s" % l,
+                                       "spec_state": r.error_text[-3000:]}, "trace:" + name)
+                else:
+                    sys.stderr.write(r.stdout + "\n")
+                    raise ToolFailure("TLC failed validating trace %s with %s: %s" % (pf, module, r.error))
+            for body in r.mismatches:
+                parts = json.loads("[" + body + "]")
+                k, tag = parts[0] + offset, (parts[1] if len(parts) > 1 else "")
+                bytag.setdefault(k, set()).add(tag)
+            distinct += r.distinct
+            generated += r.generated
+            wall += r.wall
+            if count >= 0:
+                offset += count
+                os.remove(pf)
+        r.distinct, r.generated, r.wall = distinct, generated, wall
         for k, tags in sorted(bytag.items()):
             if recs is None:
                 recs = [json.loads(l) for l in open(trace)]
